@@ -156,8 +156,11 @@ def gen_population(rnd):
 def gen_steps(rnd):
     steps = []
     for _ in range(rnd.choice([0, 1, 2, 3, 3, 5])):
-        op = rnd.choice(["add-same", "add-other", "override", "override", "textbox", "reclone", "notes"])
+        op = rnd.choice(["add-same", "add-other", "override", "override", "textbox", "reclone", "notes", "layout-add"])
         st = {"op": op, "slide": rnd.randrange(8)}
+        if op == "layout-add":  # the layout itself is edited between two additions; the next slide must mirror it as it is then
+            steps.append(st)
+            st = {"op": "add-same", "slide": 0}
         if op == "add-other":
             st.update(master=rnd.randrange(4), layout=rnd.randrange(32))
         if op == "override":
@@ -346,6 +349,25 @@ def do_step(ctx, st, where):
         m, lay = get_layout(ctx, st["master"], st["layout"])
         if lay is not None:
             add_slide(ctx, m, lay, where)
+    elif op == "layout-add":
+        # "other edits": a further placeholder is put on the layout (a copy of one of its non-latent placeholders under a new
+        # idx, id and name), with lxml - slides added before keep what they have, slides added afterwards must get it too
+        import copy
+
+        lay = ctx.layout._element
+        cands = [sp for sp in xp(lay, "./p:cSld/p:spTree/p:sp[p:nvSpPr/p:nvPr/p:ph]") if (xp(sp, "./p:nvSpPr/p:nvPr/p:ph/@type") or ["obj"])[0] not in LATENT]
+        if not cands:
+            return
+        new = copy.deepcopy(cands[st["slide"] % len(cands)])
+        ids = [int(i) for i in xp(lay, "//p:cNvPr/@id") if i.isdigit()]
+        idxs = [int(i) for i in xp(lay, "//p:ph/@idx") if i.isdigit()]
+        c = xp(new, "./p:nvSpPr/p:cNvPr")[0]
+        c.set("id", str(max(ids) + 1))
+        c.set("name", "Added Placeholder %d" % (max(ids) + 1))
+        xp(new, "./p:nvSpPr/p:nvPr/p:ph")[0].set("idx", str(next(i for i in range(10, 10 + len(idxs) + 2) if i not in idxs)))
+        cands[-1].addnext(new)
+        acc.count("layout_placeholders_added_between_additions")
+        return
     elif e is None:
         return
     elif op == "textbox":
@@ -372,6 +394,7 @@ def do_step(ctx, st, where):
         rec = next(r for r in ph_records(e["slide"]._element) if r["id"] == str(p.shape_id))
         e["expect"][rec["id"]] = expected_geometry(rec, e["lay_recs"], e["mas_recs"])  # from here on the slide's own a:xfrm rules
     elif op == "reclone":
+        e["lay_recs"] = ph_records(e["layout"]._element)  # the layout as it is now (a 'layout-add' step may have extended it)
         want = [l for l in e["lay_recs"] if l["type"] not in LATENT]
         ok, tb = ctx.api("add_textbox-raises", e["slide"].shapes.add_textbox, Emu(0), Emu(0), Emu(1000), Emu(1000))
         if not ok:
